@@ -17,6 +17,17 @@ theorem pickNonzero_ne_zero {l : List Nat} {h : Nat} {rest : List Nat}
     · simp only [Option.some.injEq, Prod.mk.injEq] at hp
       omega
 
+theorem pickNonzero_mem {l : List Nat} {h : Nat} {rest : List Nat}
+    (hp : pickNonzero l = some (h, rest)) : h ∈ l := by
+  induction l with
+  | nil => simp [pickNonzero] at hp
+  | cons x xs ih =>
+    unfold pickNonzero at hp
+    split at hp
+    · exact List.mem_cons_of_mem _ (ih hp)
+    · simp only [Option.some.injEq, Prod.mk.injEq] at hp
+      simp [hp.1]
+
 theorem pickNonzero_some_of_mem {l : List Nat} {x : Nat} (hx : x ∈ l) (h0 : x ≠ 0) :
     ∃ h rest, pickNonzero l = some (h, rest) := by
   induction l with
